@@ -37,10 +37,24 @@ PRESERVING = {
     'RG4': ('C12', 'C15', 'C16', 'C20'),
     'RG5': ('C08', 'C18'),
     'RG6': ('C04', 'C06', 'C09', 'C12', 'C16', 'C17', 'C18'),
+    # third set (modernisation: std::array, auto, named constants, lambdas for snippets, operand swaps, switch <-> table)
+    'RH1': ('C13', 'C14', 'C15', 'C19', 'C20'),
+    'RH2': ('C01', 'C02', 'C10', 'C11', 'C12', 'C14', 'C19'),
+    'RH3': ('C01', 'C02', 'C06', 'C10', 'C11', 'C12', 'C14'),
+    'RH4': ('C12', 'C15', 'C16', 'C20'),
+    'RH5': ('C08', 'C18'),
+    'RH6': ('C04', 'C06', 'C09', 'C12', 'C16', 'C17', 'C18'),
+    # fourth set (algorithmic shape: lambdas, single exit, index arithmetic, std::min/max/abs, counted scans, out-parameter helpers)
+    'RI1': ('C13', 'C14', 'C15', 'C19', 'C20'),
+    'RI2': ('C01', 'C02', 'C10', 'C11', 'C12', 'C14', 'C19'),
+    'RI3': ('C01', 'C02', 'C06', 'C10', 'C11', 'C12', 'C14'),
+    'RI4': ('C12', 'C15', 'C16', 'C20'),
+    'RI5': ('C08', 'C18'),
+    'RI6': ('C04', 'C06', 'C09', 'C12', 'C16', 'C17', 'C18'),
 }
 # refactorings on which a rule is allowed to end without a verdict (exit 2, "not recognised"): the form is outside what the
 # engine follows; it must still never report a violation there
-NO_VERDICT_OK = {('RG2c', 'C02'), ('RG2c', 'C14'), ('RG4c', 'C15'), ('RG4d', 'C15')}
+NO_VERDICT_OK = {('RG4c', 'C15'), ('RI4c', 'C15'), ('RI2b', 'C12'), ('RI3a', 'C02'), ('RI3a', 'C06'), ('RI3a', 'C10'), ('RI3a', 'C14')}
 
 
 def run_property(prop, tier, only=None):
